@@ -39,6 +39,7 @@ func stepAlphabet(depth int) []seqx.Step {
 		{Op: "Hook", Hooks: []int{depth*10 + 4, depth*10 + 5, depth*10 + 6}},
 		{Op: "Reset"},
 		{Op: "With", Fields: []seqx.Field{{M: "Str", Key: k("big"), Val: strings.Repeat("B", 510)}}},
+		{Op: "With", Fields: []seqx.Field{{M: "Object", Key: k("on"), Form: "nil"}, {M: "Stringer", Key: k("sn"), Val: nil}, {M: "Interface", Key: k("in"), Val: nil}, {M: "Strs", Key: k("se"), Val: []string{}}, {M: "Dict", Key: k("de")}}}, // fields whose value is null / empty must not be dropped
 		{Op: "Level", Level: zerolog.Disabled}, // muted for a while: what is derived meanwhile must still count once re-enabled
 		{Op: "HookChain", Fields: []seqx.Field{{M: "Dict", Key: k("hd"), Sub: []seqx.Field{{M: "Int", Key: "n", Val: depth}}}, {M: "Array", Key: k("ha"), Form: "arr", Sub: []seqx.Field{{M: "Str", Val: "x"}}}, {M: "Timestamp"}}},
 	}
